@@ -125,6 +125,11 @@ def run_case(case: Dict[str, Any], ctx) -> None:
         elif not torch.equal(got, v):
             ctx.violation(f"C16:unrelated-parameter-changed:{typ or 'raw-parameter'}", f"{k} differs from the original although it is not a Linear/Embedding weight or bias", source=src)
     # ---- execute through the real Dynamo path ---------------------------------------------------------
+    if case["seed"] % 4 == 2:
+        try:  # history: a rejected call first (wrong number of arguments, caught by the caller)
+            us()
+        except Exception:
+            ctx.count("history:rejected-call-first")
     torch._dynamo.utils.counters.clear()
     ins_u = [t.detach().clone().requires_grad_(True) if t.is_floating_point() else t.clone() for t in inputs]
     try:
